@@ -14,6 +14,9 @@ Modelled after
     value)` and `Scalar(category, unit=…)`, `AbstractValueWithQuantityObject.CreateCopy`
   * `Array.GetAbstractValue` (list-of-tuples branch), `FixedArray.IndexAsScalar/ChangingIndex`
   * `ChangeScalars`, `UnitSystemManager.ConvertToCurrent/ConvertScalarToCurrent`
+  * the calls that change what those two read: `UnitSystemManager.AddUnitSystem / RemoveUnitSystem /
+    SetCurrent / GetCurrent` (null unit system), `UnitSystem.SetDefaultUnit / RemoveCategory /
+    GetDefaultUnit` — `Mgr`, `Mgr.step`, `Mgr.run` (histories)
 -/
 import Barril.Model.Conv
 
@@ -703,5 +706,133 @@ def convertScalarToCurrent (db : Db) (cur : Current) (s : Scalar) : Except ErrKi
     | .ok x =>
       if u == s.q.unit then s.createCopy db (some x) none none
       else s.createCopy db (some x) (some u) none
+
+/-! ### UnitSystemManager: the operations that change what the two routes read
+
+The two routes read ONE thing of the manager: the units mapping of `GetCurrent()` (the current unit
+system, or the manager's private null unit system when there is none).  `Mgr` is the part of the
+manager that decides it; the conversion steps call `convertToCurrent` with that mapping and nothing
+else (no memo of earlier calls exists in the code: `Barril/Props/C02.lean`, section 6b). -/
+
+/-- `d[k] = v` on an ordered dict -/
+def dictSet (k v : Sym) : List (Sym × Sym) → List (Sym × Sym)
+  | [] => [(k, v)]
+  | (k', v') :: rest => if k' == k then (k', v) :: rest else (k', v') :: dictSet k v rest
+
+/-- `del d[k]` (a missing key is swallowed by `RemoveCategory`) -/
+def dictDel (k : Sym) (m : List (Sym × Sym)) : List (Sym × Sym) := m.filter (fun p => !(p.1 == k))
+
+/-- a `UnitSystem`: id and `_units_mapping` -/
+structure USys where
+  id : Sym
+  mapping : List (Sym × Sym)
+deriving DecidableEq, Repr
+
+/-- `_unit_systems` (insertion order), the id of `_current`, the mapping of the null unit system -/
+structure Mgr where
+  systems : List USys
+  current : Option Sym
+  nullMap : List (Sym × Sym)
+deriving DecidableEq, Repr
+
+/-- `UnitSystemManager()` -/
+def Mgr.new : Mgr := ⟨[], none, []⟩
+
+def Mgr.find (m : Mgr) (id : Sym) : Option USys := m.systems.find? (·.id == id)
+
+/-- `GetCurrent().GetUnitsMapping()` -/
+def Mgr.currentMapping (m : Mgr) : List (Sym × Sym) :=
+  match m.current with
+  | none => m.nullMap
+  | some id =>
+    match m.find id with
+    | some s => s.mapping
+    | none => []
+
+def mapSys (id : Sym) (f : List (Sym × Sym) → List (Sym × Sym)) : List USys → List USys
+  | [] => []
+  | s :: rest => if s.id == id then { s with mapping := f s.mapping } :: rest else s :: mapSys id f rest
+
+/-- an in-place edit of a unit system's mapping: of `GetUnitSystemById(id)` or of `GetCurrent()` -/
+def Mgr.edit (m : Mgr) (on : Option Sym) (f : List (Sym × Sym) → List (Sym × Sym)) : Except ErrKind Mgr :=
+  match on with
+  | some id => if (m.find id).isSome then .ok { m with systems := mapSys id f m.systems } else .error .value
+  | none =>
+    match m.current with
+    | some id => .ok { m with systems := mapSys id f m.systems }
+    | none => .ok { m with nullMap := f m.nullMap }
+
+/-- one call on the manager / on one of its unit systems -/
+inductive MgrOp
+  /-- `AddUnitSystem(id, caption, mapping)` (no template) -/
+  | add (id : Sym) (mapping : List (Sym × Sym))
+  /-- `RemoveUnitSystem(id)` -/
+  | remove (id : Sym)
+  /-- `SetCurrent(GetUnitSystemById(id))` / `SetCurrent(None)` -/
+  | setCurrent (id : Option Sym)
+  /-- `system.SetDefaultUnit(category, unit)`; `on = none`: on `GetCurrent()` -/
+  | setDefaultUnit (on : Option Sym) (c u : Sym)
+  /-- `system.RemoveCategory(category)` -/
+  | removeCategory (on : Option Sym) (c : Sym)
+  /-- `ConvertToCurrent(category, unit, value)` -/
+  | convert (c u : Sym) (val : Val)
+  /-- `ConvertScalarToCurrent(scalar)` -/
+  | convertScalar (s : Scalar)
+deriving Repr
+
+/-- what a step answers: the mapping now current (state-changing calls), or the route's result -/
+inductive MgrOut
+  | state (cur : List (Sym × Sym))
+  | conv (v : Val) (u : Sym)
+  | scalar (s : Scalar)
+deriving DecidableEq, Repr
+
+def okState (m : Mgr) : Mgr × Except ErrKind MgrOut := (m, .ok (.state m.currentMapping))
+
+def convOut (r : Except ErrKind (Val × Sym)) : Except ErrKind MgrOut :=
+  match r with
+  | .error e => .error e
+  | .ok (v, u) => .ok (.conv v u)
+
+def scalarOut (r : Except ErrKind Scalar) : Except ErrKind MgrOut :=
+  match r with
+  | .error e => .error e
+  | .ok s => .ok (.scalar s)
+
+/-- one step: the new state and the answer; a call that raises leaves the manager as it was -/
+def Mgr.step (db : Db) (m : Mgr) : MgrOp → Mgr × Except ErrKind MgrOut
+  | .add id mapping =>
+    if (m.find id).isSome then (m, .error .key)          -- UnitSystemIDError
+    else okState { m with systems := m.systems ++ [⟨id, mapping⟩],
+                          current := match m.current with
+                            | some c => some c
+                            | none => some id }
+  | .remove id =>
+    if (m.find id).isSome then
+      let rest := m.systems.filter (fun s => !(s.id == id))
+      okState { m with systems := rest,
+                       current := if m.current == some id then rest.head?.map (·.id) else m.current }
+    else (m, .error .key)
+  | .setCurrent none => okState { m with current := none }
+  | .setCurrent (some id) =>
+    if (m.find id).isSome then okState { m with current := some id } else (m, .error .value)
+  | .setDefaultUnit on c u =>
+    match m.edit on (dictSet c u) with
+    | .error e => (m, .error e)
+    | .ok m' => okState m'
+  | .removeCategory on c =>
+    match m.edit on (dictDel c) with
+    | .error e => (m, .error e)
+    | .ok m' => okState m'
+  | .convert c u val => (m, convOut (convertToCurrent db (some m.currentMapping) c u val))
+  | .convertScalar s => (m, scalarOut (convertScalarToCurrent db (some m.currentMapping) s))
+
+/-- a history of calls: the state it ends in and the answers in order -/
+def Mgr.run (db : Db) : Mgr → List MgrOp → Mgr × List (Except ErrKind MgrOut)
+  | m, [] => (m, [])
+  | m, op :: ops =>
+    let r := m.step db op
+    let rest := Mgr.run db r.1 ops
+    (rest.1, r.2 :: rest.2)
 
 end Barril.Routes
